@@ -417,3 +417,6 @@ RULES = [
     ("C09.MODFOLD", 7, rule_modfold),
     ("C09.NONINTERF", 7, rule_noninterf),
 ]
+
+from . import common as _common_purity
+RULES = RULES + _common_purity.purity_rules("C09")
